@@ -93,7 +93,7 @@ def match_finding(findings, prop, contract, case, obligation):
     for f in findings:
         if f.get("status") != "open" or f["property"] != prop:
             continue
-        if f["contract"] == contract and re.fullmatch(f["case"], case) and re.fullmatch(f["obligation"], obligation):
+        if re.fullmatch(f["contract"], contract) and re.fullmatch(f["case"], case) and re.fullmatch(f["obligation"], obligation):
             return f
     return None
 
